@@ -207,6 +207,9 @@ class PipeOps(FullOps):
                 for a in sorted(self.atoms_of(v)):
                     p = p + Poly.sym(f"|{a}|")
                 return TV(kind="pyint", poly=p, note="len")
+        if isinstance(v, ListV) and v.items is None and isinstance(v.length, TV) and v.length.poly is not None and not self.strict_atoms \
+                and any(str(a).startswith("range") for a in order_src(v.order)):
+            return v.length  # a list built element by element from a range of known length
         if isinstance(v, ListV) and v.items is None:
             src = "+".join(str(a) for a in order_src(v.order)) or "?"
             uniq = v.order is not None and ("unordered" in v.order[1] or "unique" in v.order[1])
@@ -683,7 +686,10 @@ class PipeOps(FullOps):
             order = (order_src(lst.order) + ("then-last",), lst.order[1]) if lst.order is not None else None
             new = ListV(items=None, elem=join(lst.elem, args[0]) if lst.elem is not None else args[0], kind=lst.kind, order=order)
             if lst.elem is not None:
-                new = replace(new, head=lst.head if lst.tail else lst.elem, tail=lst.tail + (args[0],))
+                pt = lst.parts()
+                ln = tv_of(lst.length) if lst.length is not None else None
+                new = replace(new, head=pt[0] if pt else lst.elem, tail=(pt[1] if pt else ()) + (args[0],), tail_elem=new.elem,
+                              length=ln.but(poly=ln.poly + Poly.const(1), size_of=None) if ln is not None and ln.poly is not None else None)
             self.interp.rebind(node.func.value, new, env, node)
             return NONE
         return super().list_method(lst, name, args, kwargs, node, env)
